@@ -71,7 +71,8 @@ pub fn write_case_files(case: &Case, dir: &Path) -> Vec<String> {
     let mut args = Vec::new();
     for (i, rows) in case.files.iter().enumerate() {
         let p = dir.join(format!("file{}.csv", i));
-        std::fs::write(&p, csv_text_variant(rows, case.hdr.get(i).cloned().unwrap_or(0))).unwrap();
+        let _ = rows;
+        std::fs::write(&p, case.file_text(i)).unwrap();
         args.push(p.to_string_lossy().to_string());
     }
     for (sec, (n, c)) in &case.opening {
